@@ -214,6 +214,13 @@ class NewApiScenario:
             size = (ch.skewed("rw", 1, maxw), ch.skewed("rh", 1, maxh))
         else:
             size = (ch.int("rw", 1, cols + 3), ch.int("rh", 1, rows + 4))
+        # the corner of the validation rules that independent knobs rarely reach together:
+        # a single frame taller than the screen, size check on, scrolling allowed
+        tall_scroll = ch.bool("tall_scroll_case", 0.05)
+        if tall_scroll:
+            fit = False
+            size = (ch.int("rw", 1, min(cols, 8)), rows + ch.int("rh_over", 1, 4))
+            ctx.probe("single_frame_taller_than_screen_scroll_allowed")
         self.size = size
         self.pad = gen_padding(ch, size, self.term, fit=fit)
         self.margins = self.pad.margins(size, self.term)
@@ -234,6 +241,8 @@ class NewApiScenario:
         self.cur_frame = 0
         if kind == "anim" and ch.bool("seeked", 0.3):
             self.cur_frame = ch.int("curframe", 0, self.n - 1)
+        if tall_scroll:
+            self.animate, self.check_size, self.allow_scroll = False, True, True
         self.animation = kind != "still" and self.animate
         # documented validation rule
         do_check = self.animation or self.check_size
